@@ -44,6 +44,7 @@ type Roles struct {
 	StrategyReplace int64
 	Errs            []string
 	alwaysMemo      map[*ssa.Function]int
+	admitRetMemo    map[string]bool
 }
 
 func (ro *Roles) fail(format string, a ...interface{}) {
@@ -237,7 +238,10 @@ func resolveRoles(w *World) *Roles {
 	if ro.Start != nil {
 		allInstrs(ro.Start, func(in ssa.Instruction) {
 			if g, ok := in.(*ssa.Go); ok {
+				// the scheduling goroutine: a closure of the start function, or a method it launches
 				if f := funcValue(g.Call.Value); f != nil && f.Parent() == ro.Start {
+					ro.StartGo = f
+				} else if f := g.Call.StaticCallee(); f != nil && w.InModule(f) && f.Blocks != nil {
 					ro.StartGo = f
 				}
 			}
@@ -316,6 +320,24 @@ func resolveRoles(w *World) *Roles {
 			}
 			ro.CancelInt = fn
 		}
+	}
+	// the internal cancel is the decision function (job id) → error; when the delivery sits in a
+	// helper that gets the job, walk up through unique callers to the function with that signature
+	isIDFunc := func(f *ssa.Function) bool {
+		return f.Signature.Params().Len() == 1 && strings.HasSuffix(f.Signature.Params().At(0).Type().String(), "uuid.UUID") &&
+			f.Signature.Results().Len() == 1 && f.Signature.Results().At(0).Type().String() == "error"
+	}
+	for i := 0; i < 3 && ro.CancelInt != nil && !isIDFunc(ro.CancelInt); i++ {
+		var callers []*ssa.Function
+		for _, g := range funcs {
+			if len(findCalls(g, func(_ string, c *ssa.CallCommon) bool { return c.StaticCallee() == ro.CancelInt })) > 0 {
+				callers = append(callers, g)
+			}
+		}
+		if len(callers) != 1 {
+			break
+		}
+		ro.CancelInt = callers[0]
 	}
 	for _, fn := range funcs {
 		if fn.Object() == nil || !fn.Object().Exported() || fn.Signature.Recv() == nil || fn.Signature.Results().Len() != 1 || fn.Signature.Results().At(0).Type().String() != "error" {
